@@ -3,7 +3,7 @@
    blob/packer.rs (BasicPacker/RawPacker) and commands/repair/index.rs; the constants come
    from Extracted.v, regenerated from the source on every run. *)
 From Verif.Base Require Import Tactics.
-From Verif.C08 Require Import Extracted Model Spec ProofsCodec ProofsPacker ProofsFromFile.
+From Verif.C08 Require Import Extracted Model Spec ProofsCodec ProofsPacker ProofsFromFile ProofsRebuild.
 Local Open Scope N_scope.
 
 (* Parsing the binary header of any list of index blobs gives the same blobs back, with the
@@ -74,21 +74,25 @@ Theorem from_file_hint_underflow : forall (dec : bytes -> option bytes) rp hint 
 Proof. exact from_file_underflow. Qed.
 Print Assumptions from_file_hint_underflow.
 
-(* repair-index after ALL index files were deleted: the rebuilt index lists, for every pack of
-   the listing, exactly the blobs the packer recorded (same order, offsets, lengths, types);
-   delete marks and pack times are not recoverable.
-   Full statement (NOT proved, see NOTES.md): for an arbitrary set of remaining index entries
-   that agree with their packs the result has the same entry set
-     forall index, (forall pid bs, In (pid, bs) index -> In pid (map fst packs) -> In (pid, (f, bs)) packs) ->
-       exists r, rebuild_index dec ra listing index = Ok r /\ (forall e, In e r <-> In e (map ... packs)). *)
-Theorem rebuild_index_equals_index_partial : forall (enc : bytes -> bytes) (dec : bytes -> option bytes) read_all
-    (packs : list (id * (bytes * list iblob))),
+(* repair-index, for ANY subset of index files removed (and any stale or duplicated entries left):
+   `packs` are the pack files of the backend, each a well-formed pack (what packer_pack_wellformed
+   gives) named by its id; `index` is whatever index entries remain, each with a computable size
+   and - if the pack it names exists - listing that pack's blobs.  Then PackChecker::check_pack over
+   all entries followed by PackHeader::from_file on every pack not kept (hint = header size of the
+   index entry, or none for unindexed packs; read_all or not) neither panics nor errs and yields,
+   up to order, exactly one entry per existing pack with exactly the packer's blobs; hence the same
+   set of (pack, type, id, offset, length, uncompressed length) tuples as the lost index had for
+   existing packs.  Delete marks and pack times are not recoverable from packs (not claimed). *)
+Theorem rebuild_index_equals_index : forall (enc : bytes -> bytes) (dec : bytes -> option bytes) read_all
+    (packs : list pk) (index : list ipack),
   (forall x, dec (enc x) = Some x) -> (forall x, length (enc x) = (length x + 32)%nat) ->
   Forall (good_pack enc) packs ->
-  rebuild_index dec read_all (map (fun p => (fst p, fst (snd p))) packs) []
-  = Ok (map (fun p => (fst p, snd (snd p))) packs).
-Proof. exact (fun enc dec ra packs H1 H2 => rebuild_all_deleted_lemma enc dec H1 H2 ra packs). Qed.
-Print Assumptions rebuild_index_equals_index_partial.
+  Forall (entry_agrees packs) index ->
+  exists r, rebuild_index dec read_all (listing_of packs) index = Ok r /\
+            Permutation r (truth_of packs) /\
+            Permutation (entries_of r) (entries_of (truth_of packs)).
+Proof. exact (fun enc dec ra packs index H1 H2 H3 => rebuild_index_entries_lemma enc dec H1 H2 packs H3 ra index). Qed.
+Print Assumptions rebuild_index_equals_index.
 
 (* PackHeader::from_file on a 3-byte file without size hint (what repair-index does for a
    truncated, unindexed pack): `pack_size - read_size` underflows; and a length field >= 2^32-4
